@@ -4,8 +4,8 @@ import (
 	"bytes"
 	"context"
 	"encoding/json"
-	"io"
 
+	"github.com/goccy/go-json/internal/decoder"
 	"github.com/goccy/go-json/internal/encoder"
 )
 
@@ -351,26 +351,15 @@ func HTMLEscape(dst *bytes.Buffer, src []byte) {
 
 // Valid reports whether data is a valid JSON encoding.
 func Valid(data []byte) bool {
-	// a Decoder skips one ',' or ':' before a value (for Token-driven use); a document starts with neither
-	for _, c := range data {
-		if c == ' ' || c == '\t' || c == '\n' || c == '\r' {
-			continue
-		}
-		if c == ',' || c == ':' {
-			return false
-		}
-		break
-	}
-	var v interface{}
-	decoder := NewDecoder(bytes.NewReader(data))
-	err := decoder.Decode(&v)
+	// the validating skipper of the buffer decoder: the grammar alone decides, no value is built
+	// (a number beyond float64 is valid; a NUL or another control character in the text is not)
+	src := make([]byte, len(data)+1) // append nul byte to the end
+	copy(src, data)
+	cursor, err := decoder.SkipValue(src, 0)
 	if err != nil {
 		return false
 	}
-	// nothing but white space may follow the value: More reports false for ']' and '}' too,
-	// and InputOffset is not a byte count once a string has been unescaped in place
-	var rest interface{}
-	return decoder.Decode(&rest) == io.EOF
+	return validateEndBuf(src, cursor) == nil
 }
 
 func init() {
